@@ -21,7 +21,9 @@ def gen_case(rng, cid, mode):
         # a function tag on a level of the path that captures nothing: no function of the world carries a tag, so the
         # selector matches no call at all (whatever its deeper levels would capture)
         outer, inner = rng.choice(fns), rng.choice(fns)
-        leaf = S.node(inner, [S.cap(rng.choice(["a", "b", "c", ""]), "k9", 1, cat=rng.choice(["", "T"]))])
+        nm = rng.choice(["a", "b", "c", ""])
+        # (a named capture may only be restricted to a tag the variable really carries: c carries T, a and b carry none)
+        leaf = S.node(inner, [S.cap(nm, "k9", 1, cat=rng.choice(["", "T"]) if nm in ("c", "") else "")])
         top = S.node(outer, [], [leaf], fcat="T")
         if rng.random() < 0.4:
             top = S.node(rng.choice(fns), [S.cap("a", "k8", 0)], [top])
